@@ -295,7 +295,9 @@ func (p *c03) build(i int) (*Program, *c03gen) {
 		ctx[kw] = "<" + kw + ">"
 	}
 	lay := &gen.Template{Name: "c03lay", Body: []gen.Node{&gen.NText{S: "LAY{ ", ID: "l1"}, &gen.NBlock{Name: "eb", Body: []gen.Node{&gen.NText{S: "lay-eb", ID: "l2"}}, ID: "l3"}, &gen.NText{S: " }%", ID: "l4"}}}
-	return &Program{Templates: map[string]*gen.Template{"main": t, "c03lay": lay}, Main: "main", Ctx: ctx}, g
+	// a template that is there and empty, included at the very end: it contributes nothing, and it is not missing
+	t.Body = append(t.Body, &gen.NText{S: "|", ID: "c03tail"}, &gen.NInclude{Tpl: &gen.EStr{S: "c03empty"}})
+	return &Program{Templates: map[string]*gen.Template{"main": t, "c03lay": lay, "c03empty": {Name: "c03empty"}}, Main: "main", Ctx: ctx}, g
 }
 
 func (p *c03) Describe(i int) interface{} {
